@@ -18,7 +18,9 @@ EXPLANATION = (
 RULES = "guarded-site, must-pass-through and flag-conditioned reachability over the dispatcher CFGs; value-provenance slices for the flush counter."
 
 
-def run(ck, prog, tier, load):
+def flush_accounting(ck, prog, P="C04-a"):
+    """flush accounting of InnerDispatcher::poll_flush; shared by C04 (written exactly once) and C02 (never
+    interleaved / duplicated): rule ids are prefixed with P"""
     pf = disp(prog, "poll_flush")
     WB = DF + r"write_buf$"
 
@@ -28,50 +30,68 @@ def run(ck, prog, tier, load):
     # ---- (a) flush accounting -------------------------------------------
     adv = [bb for bb, t in pf.calls(r"BytesMut::advance$|Buf>::advance$|Buf::advance$") if on_wb(pf.op_expr(t["args"][0]))]
     clr = [bb for bb, t in pf.calls(r"BytesMut::clear$") if on_wb(pf.op_expr(t["args"][0]))]
-    ck.anchor("C04-a", len(adv), 1, "write_buf.advance(..) in poll_flush")
-    ck.anchor("C04-a", len(clr), 1, "write_buf.clear() in poll_flush")
+    ck.anchor(P, len(adv), 1, "write_buf.advance(..) in poll_flush")
+    ck.anchor(P, len(clr), 1, "write_buf.clear() in poll_flush")
     pend = ret_sites(pf, lambda e: is_agg(e, r"Poll::Pending$"))
-    ck.anchor("C04-a", len(pend), 1, "Poll::Pending returns in poll_flush")
+    ck.anchor(P, len(pend), 1, "Poll::Pending returns in poll_flush")
     for bb, e in pend:
         ok = any(pf.dominates(a, bb) for a in adv)
-        ck.ob("C04-a.pending-advances", "poll_flush|Pending", ok, pf, bb, "Poll::Pending is dominated by write_buf.advance(written): bytes already written are not sent again")
+        ck.ob(P + ".pending-advances", "poll_flush|Pending", ok, pf, bb, "Poll::Pending is dominated by write_buf.advance(written): bytes already written are not sent again")
+    # W = the usize local(s) that mark where the next socket write starts: poll_write is given write_buf[W..]
+    W = set()
+    for bb, t in pf.calls(r"AsyncWrite::poll_write$"):
+        buf = pf.op_expr(t["args"][2])
+        for x in walk(buf):
+            if is_agg(x, r"RangeFrom$"):
+                W |= set(o[1] for o in x[3] if o[0] in ("var", "phi") and pf.lty(o[1]) == "usize")
+    ck.anchor(P, len(W), 1, "usize local that is the start of the slice given to poll_write (running byte count)")
     for a in adv:
         arg = pf.op_expr(pf.term(a)["args"][1])
-        ok = is_local_named(arg, "written")
-        ck.ob("C04-a.advance-arg", "poll_flush", ok, pf, a, "advance() argument is exactly the running byte count: %s" % short(arg))
+        ok = is_local(arg, W)
+        ck.ob(P + ".advance-arg", "poll_flush", ok, pf, a, "advance() argument is exactly the running byte count: %s" % short(arg))
     # tail: value returned from the socket flush must come after clear()
     tails = [(bb, e) for bb, e in pf.ret_exprs() if e_calls(e, r"AsyncWrite::poll_flush$")]
     other_ready = [(bb, e) for bb, e in pf.ret_exprs() if agg_chain(e)[0][:2] == ["core::task::poll::Poll::Ready", "core::result::Result::Ok"]]
-    ck.anchor("C04-a", len(tails) + len(other_ready), 1, "success exits of poll_flush")
+    ck.anchor(P, len(tails) + len(other_ready), 1, "success exits of poll_flush")
     for bb, e in tails + other_ready:
         ok = any(pf.dominates(c, bb) for c in clr)
-        ck.ob("C04-a.flush-after-clear", "poll_flush|%s" % ("io.poll_flush" if e[0] == "call" else "Ready(Ok)"), ok, pf, bb, "success exit is dominated by write_buf.clear()")
+        ck.ob(P + ".flush-after-clear", "poll_flush|%s" % ("io.poll_flush" if e[0] == "call" else "Ready(Ok)"), ok, pf, bb, "success exit is dominated by write_buf.clear()")
     # any Pending produced by propagating the socket flush (`ready!`) must also be after clear
     for a in pf.live:
         br = pf.branch(a)
         if br and br[0][0] == "discr" and e_calls(br[0], r"AsyncWrite::poll_flush$"):
             ok = any(pf.dominates(c, a) for c in clr)
-            ck.ob("C04-a.flush-after-clear", "poll_flush|match io.poll_flush", ok, pf, a, "the socket flush is polled only after write_buf.clear()")
+            ck.ob(P + ".flush-after-clear", "poll_flush|match io.poll_flush", ok, pf, a, "the socket flush is polled only after write_buf.clear()")
     for c in clr:
-        ok = guarded_by(pf, c, cmp_pred("Lt", lambda e: any(r[2] == "written" for r in e_roots(e) if r[0] in ("var", "phi")), lambda e: bool(e_calls(e, r"BytesMut::len$")), False))[0]
-        ck.ob("C04-a.clear-on-loop-exit", "poll_flush", ok, pf, c, "write_buf.clear() only on the edge `written >= len` (everything was handed to the socket)")
+        ok = guarded_by(pf, c, cmp_pred("Lt", lambda e: root_is(e, W), lambda e: bool(e_calls(e, r"BytesMut::len$")), False))[0]
+        ck.ob(P + ".clear-on-loop-exit", "poll_flush", ok, pf, c, "write_buf.clear() only on the edge `written >= len` (everything was handed to the socket)")
     # `written` grows only by poll_write's count
-    wl = [i for i, l in enumerate(pf.locals) if l.get("n") == "written"]
-    ck.anchor("C04-a", len(wl), 1, "local `written` in poll_flush")
+    wl = sorted(W)
     for l in wl:
         for d in pf.defs().get(l, []):
             e = pf.def_expr(d, 8)
             ok = e[:3] == ("const", None, 0)
             if not ok:
                 top = e[1] if e[0] == "place" else e
-                ok = top[0] == "bin" and top[1] in ("Add", "AddWithOverflow") and is_local_named(top[2], "written") and bool(e_calls(top[3], r"AsyncWrite::poll_write$")) and not e_bins(top[3])
-            ck.ob("C04-a.written-provenance", "poll_flush|%s" % ("init" if e[0] == "const" else "step"), ok, pf, d[1], "written := %s" % short(e, 3))
+                ok = top[0] == "bin" and top[1] in ("Add", "AddWithOverflow") and is_local(top[2], W) and bool(e_calls(top[3], r"AsyncWrite::poll_write$")) and not e_bins(top[3])
+            ck.ob(P + ".written-provenance", "poll_flush|%s" % ("init" if e[0] == "const" else "step"), ok, pf, d[1], "written := %s" % short(e, 3))
     for bb, t in pf.calls(r"AsyncWrite::poll_write$"):
         buf = pf.op_expr(t["args"][2])
-        ok = on_wb(buf) and any(is_agg(x, r"RangeFrom$") and any(r[2] == "written" for r in e_roots(x) if r[0] in ("var", "phi")) for x in walk(buf))
-        ck.ob("C04-a.write-slice", "poll_flush", ok, pf, bb, "poll_write is given write_buf[written..]")
+        ok = on_wb(buf) and any(is_agg(x, r"RangeFrom$") and root_is(x, W) for x in walk(buf))
+        ck.ob(P + ".write-slice", "poll_flush", ok, pf, bb, "poll_write is given write_buf[written..]")
     wz = [bb for bb, e in pf.ret_exprs() if e_has_const(e, r"ErrorKind::WriteZero$") or any(x[0] == "agg" and (x[2] or "").endswith("WriteZero") for x in walk(e))]
-    ck.ob("C04-a.write-zero", "poll_flush", bool(wz), pf, wz[0] if wz else None, "a zero-length write ends the connection with WriteZero instead of spinning")
+    ck.ob(P + ".write-zero", "poll_flush", bool(wz), pf, wz[0] if wz else None, "a zero-length write ends the connection with WriteZero instead of spinning")
+
+
+
+def run(ck, prog, tier, load):
+    pf = disp(prog, "poll_flush")
+    WB = DF + r"write_buf$"
+
+    def on_wb(e):
+        return e_has_field(e, WB)
+
+    flush_accounting(ck, prog, "C04-a")
 
     # ---- (b) waker hand-off ------------------------------------------------
     n = 0
@@ -194,3 +214,10 @@ def run(ck, prog, tier, load):
         ck.ob("C04-c.shutdown-flushes-first", "Dispatcher::poll", g and fl, poll, bb, "socket shutdown happens under SHUTDOWN (%s) and after poll_flush completed (%s)" % (g, fl))
     wd = [bb for bb, st, e in agg_sites(poll, r"Poll::Ready$") if agg_chain(e)[0][:2] == ["core::task::poll::Poll::Ready", "core::result::Result::Ok"] and guarded_by(poll, bb, flag_edge("WRITE_DISCONNECT", True))[0]]
     ck.ob("C04-c.write-disconnect-ends", "Dispatcher::poll", len(wd) >= 2, poll, wd[0] if wd else None, "WRITE_DISCONNECT ends the task with Ready(Ok(())) in the shutdown branch and after the write loop (%d exits)" % len(wd))
+    # the stored stream error (recorded when an error response was queued) ends the task only after that response left
+    errs = [(bb, e) for bb, e in poll.ret_exprs() if any(x[0] == "call" and rx(r"Option.*::take$").search(x[1] or "") and e_has_field(x, r"\.error$") for x in walk(e))]
+    ck.anchor("C04-c", len(errs), 1, "return of the stored stream error (inner.error.take()) in Dispatcher::poll")
+    wb_empty = lambda c, lab: bool(bool_test(c, lab)) and bool_test(c, lab)[1] is True and bool_test(c, lab)[0][0] == "call" and rx(r"BytesMut::is_empty$").search(bool_test(c, lab)[0][1] or "") is not None and e_has_field(bool_test(c, lab)[0], r"write_buf$")
+    for bb, e in errs:
+        ok, wit = guarded_by(poll, bb, wb_empty)
+        ck.ob("C04-c.error-exit-after-flush", "Dispatcher::poll", ok, poll, bb, "the connection future resolves with the stored error only on the edge write_buf.is_empty(): the error response queued with it has been written completely", witness=poll.path_lines(wit))
